@@ -422,4 +422,63 @@ theorem dTaBw_lengths (nt ix0 : Nat) :
     have : 2 * nt - nt = nt := by omega
     rw [this, Nat.mul_comm]
 
+
+/-! ## double-ended matching sections: entry formulas of the splice coefficients -/
+theorem mEq_rowcol (nt n p j : Nat) (hp : p < n) (hj : j < nt) :
+    (mEqRow nt n)[p * nt + j]? = some (p * nt + j) ∧ (mEqFCol nt n)[p * nt + j]? = some j ∧
+    (mEqBCol nt n)[p * nt + j]? = some (nt + j) := by
+  have hlt : p * nt + j < n * nt := by
+    calc p * nt + j < p * nt + nt := by omega
+      _ = (p + 1) * nt := by rw [Nat.add_mul, Nat.one_mul]
+      _ ≤ n * nt := Nat.mul_le_mul_right _ hp
+  obtain ⟨_, hm⟩ := div_mod_of_lt p nt j hj
+  refine ⟨?_, ?_, ?_⟩
+  · have := getElem?_arange 0 (nt * n) (p * nt + j) (by rw [Nat.mul_comm nt n]; simpa using hlt)
+    simpa [mEqRow] using this
+  · unfold mEqFCol
+    rw [getElem?_tile _ _ _ (by simpa using hlt)]
+    simp only [length_arange, Nat.sub_zero, hm]
+    have := getElem?_arange 0 nt j (by simpa using hj)
+    simpa using this
+  · unfold mEqBCol
+    have hl : (arange nt (2 * nt)).length = nt := by rw [length_arange]; omega
+    rw [getElem?_tile _ _ _ (by rw [hl]; exact hlt), hl, hm]
+    exact getElem?_arange nt (2 * nt) j (by omega)
+
+theorem getElem?_repeat_at {α} (l : List α) (nt p j : Nat) (hp : p < l.length) (hj : j < nt) :
+    (repeatEach l nt)[p * nt + j]? = l[p]? := by
+  have hlt : p * nt + j < l.length * nt := by
+    calc p * nt + j < p * nt + nt := by omega
+      _ = (p + 1) * nt := by rw [Nat.add_mul, Nat.one_mul]
+      _ ≤ l.length * nt := Nat.mul_le_mul_right _ hp
+  rw [getElem?_repeatEach _ _ _ hlt, (div_mod_of_lt p nt j hj).1]
+
+/-- EQ1: the coefficient stored for (pair `p`, time `j`) is `[t_p ≥ ix0] − [h_p ≥ ix0]` -/
+theorem mEq1_entry (hix tix : List Nat) (nt ix0 p j : Nat) (hlen : hix.length = tix.length) (hp : p < hix.length) (hj : j < nt) :
+    (mEq1Data hix tix nt ix0)[p * nt + j]? = some (-(ind (decide (hix.getD p 0 ≥ ix0))) + ind (decide (tix.getD p 0 ≥ ix0))) := by
+  unfold mEq1Data
+  rw [getElem?_repeat_at _ _ _ _ (by simp [addR, negR, geInd, hlen]; omega) hj]
+  have hp' : p < tix.length := by omega
+  simp [addR, negR, geInd, List.getElem?_zipWith, hp, hp', List.getD]
+
+/-- EQ2: `[t_p < ix0] − [h_p < ix0]` -/
+theorem mEq2_entry (hix tix : List Nat) (nt ix0 p j : Nat) (hlen : hix.length = tix.length) (hp : p < hix.length) (hj : j < nt) :
+    (mEq2Data hix tix nt ix0)[p * nt + j]? = some (-(ind (decide (hix.getD p 0 < ix0))) + ind (decide (tix.getD p 0 < ix0))) := by
+  unfold mEq2Data
+  rw [getElem?_repeat_at _ _ _ _ (by simp [addR, negR, ltInd, hlen]; omega) hj]
+  have hp' : p < tix.length := by omega
+  simp [addR, negR, ltInd, List.getElem?_zipWith, hp, hp', List.getD]
+
+/-- EQ3: `[i ≥ ix0] / 2` for the forward loss and `−[i < ix0] / 2` for the backward loss of the matched location `i = ix3[p]` -/
+theorem mEq3_entry (ix3 : List Nat) (nt ix0 p j : Nat) (hp : p < ix3.length) (hj : j < nt) :
+    (mEq3FData ix3 nt ix0)[p * nt + j]? = some (ind (decide (ix3.getD p 0 ≥ ix0)) / 2) ∧
+    (mEq3BData ix3 nt ix0)[p * nt + j]? = some (-(ind (decide (ix3.getD p 0 < ix0))) / 2) := by
+  constructor
+  · unfold mEq3FData
+    rw [getElem?_repeat_at _ _ _ _ (by simp [halfR, geInd, hp]) hj]
+    simp [halfR, geInd, hp, List.getD]
+  · unfold mEq3BData
+    rw [getElem?_repeat_at _ _ _ _ (by simp [halfR, negR, ltInd, hp]) hj]
+    simp [halfR, negR, ltInd, hp, List.getD]
+
 end DtsVerif.Design
